@@ -977,6 +977,29 @@ fn directed(t: &mut Trace, thorough: bool) {
     s.rt(t, "own", "offer", 1, 200, &[0, 1, 2, 3, 4]);
     s.rt(t, "own", "accept", 0, 0, &[0, 1, 2, 3, 4]);
 
+    // the withdrawal of an open offer (live_until = 0) is a privileged call like the offer itself: nobody, a stranger
+    // and the invitee cannot withdraw it, for the owner as for the admin, on the library contract and on the example
+    for kind in [Kind::Lib, Kind::Own] {
+        let mut s = Sim::new(t, "directed withdrawal of an open offer", kind, 1, 100);
+        let holder = s.owner().unwrap_or(1);
+        s.rt(t, "own", "offer", 4, 160, &[holder]);
+        s.rt(t, "own", "offer", 4, 0, &[]);
+        s.rt(t, "own", "offer", 4, 0, &[3]);
+        s.rt(t, "own", "offer", 4, 0, &[4]);
+        s.rt(t, "own", "accept", 0, 0, &[3]);
+        s.rt(t, "own", "offer", 4, 0, &[holder]);
+        s.rt(t, "own", "accept", 0, 0, &[4]);
+        if kind == Kind::Lib {
+            let adm = s.admin().unwrap_or(0);
+            s.rt(t, "adm", "offer", 2, 150, &[adm]);
+            s.rt(t, "adm", "offer", 2, 0, &[]);
+            s.rt(t, "adm", "offer", 2, 0, &[3]);
+            s.rt(t, "adm", "offer", 2, 0, &[2]);
+            s.rt(t, "adm", "offer", 2, 0, &[adm]);
+            s.rt(t, "adm", "accept", 0, 0, &[2]);
+        }
+    }
+
     // the example contract: macro-guarded entry points with real bodies
     let mut s = Sim::new(t, "directed nft-access-control example", Kind::Nft, 1, 100);
     s.only_role(t, 1, 0, 2, &[1]);
